@@ -8,7 +8,7 @@ from .dm14net import Dm14Net, le_values, topo, C_ADDR, S_ADDR
 
 ID = 'C17'
 LEVEL = 'exploration'
-BUDGET = {'quick': (20000, 80.0), 'thorough': (250000, 1500.0)}
+BUDGET = {'quick': (12000, 80.0), 'thorough': (250000, 1500.0)}
 CHUNK = 20
 RULE = ('client and server stacks (J1939-21) with MemoryAccess on bypassed CAs; blocking read/write in a simulated client application thread, a simulated server '
         'application thread answering notifications with respond(); count x size = 1..255 bytes (classes 1, 7, 8, 9, 255, random), object sizes 1/2/4/8, signed/unsigned, '
